@@ -313,8 +313,12 @@ func c12Setter(r *Report, E *envRoles) {
 				}
 			}
 		})
+		// the payload is a pointer or a value parameter
+		isField := func(v *Term, f string) bool {
+			return v != nil && (v.String() == "*$1."+f || v.String() == "$1."+f)
+		}
 		if why == "" {
-			if v, ok := puts[l258]; !ok || v.String() != "*$1.HashAlgorithm" {
+			if v, ok := puts[l258]; !ok || !isField(v, "HashAlgorithm") {
 				why = fmt.Sprintf("label 258 is not set to payload.HashAlgorithm on this path (%v)", v)
 			}
 		}
@@ -330,22 +334,72 @@ func c12Setter(r *Report, E *envRoles) {
 		}
 		if why == "" {
 			v, put := puts[l259]
-			given := hasCond("binop<==>(*$1.PreimageContentType, nil)", false)
+			given := hasCond("binop<==>(*$1.PreimageContentType, nil)", false) || hasCond("binop<==>($1.PreimageContentType, nil)", false)
 			switch {
 			case put != given:
 				why = fmt.Sprintf("label 259 put:%v but content type non-nil on this path:%v", put, given)
-			case put && v.String() != "*$1.PreimageContentType":
+			case put && !isField(v, "PreimageContentType"):
 				why = "label 259 is set to " + v.String()
 			}
 		}
 		if why == "" {
 			v, put := puts[l260]
-			given := hasCond("binop<==>(*$1.Location, \"\")", false)
+			given := hasCond("binop<==>(*$1.Location, \"\")", false) || hasCond("binop<==>($1.Location, \"\")", false)
+			{
+				pfs := factSet{}
+				for _, c := range p.conds {
+					pfs.add(c)
+				}
+				if pfs.holdsNonEmpty(mustPat("*$1.Location")) || pfs.holdsNonEmpty(mustPat("$1.Location")) {
+					given = true
+				}
+			}
 			switch {
 			case put != given:
 				why = fmt.Sprintf("label 260 put:%v but location non-empty on this path:%v", put, given)
-			case put && v.String() != "*$1.Location":
+			case put && !isField(v, "Location"):
 				why = "label 260 is set to " + v.String()
+			}
+		}
+		// a manual copy of the base map (non-constant keys) must be complete before the governed labels are put
+		for _, bb := range fn.Blocks {
+			for _, in := range bb.Instrs {
+				mu, ok := in.(*ssa.MapUpdate)
+				if !ok || !P.terms.of(mu.Map).eq(res) {
+					continue
+				}
+				k := P.terms.of(mu.Key)
+				if k.Op == "iface" {
+					k = k.Args[0]
+				}
+				if _, isConst := termConstInt(k); isConst {
+					continue
+				}
+				var L *loopInfo
+				for _, l := range findLoops(fn) {
+					if l.blocks[bb] {
+						L = l
+					}
+				}
+				okOrder := L != nil && L.exit != nil
+				if okOrder {
+					for _, b2 := range fn.Blocks {
+						for _, in2 := range b2.Instrs {
+							if mu2, ok := in2.(*ssa.MapUpdate); ok && P.terms.of(mu2.Map).eq(res) {
+								k2 := P.terms.of(mu2.Key)
+								if k2.Op == "iface" {
+									k2 = k2.Args[0]
+								}
+								if _, c2 := termConstInt(k2); c2 && !(L.exit == b2 || L.exit.Dominates(b2)) {
+									okOrder = false
+								}
+							}
+						}
+					}
+				}
+				if !okOrder && why == "" {
+					why = "entries with non-constant labels are written into the result at " + P.instrPos(mu) + " not provably before the governed labels are set"
+				}
 			}
 		}
 		for k := range puts {
